@@ -1,6 +1,7 @@
 package rules
 
 import (
+	"go/types"
 	"strings"
 
 	"golang.org/x/tools/go/ssa"
@@ -406,6 +407,12 @@ func c01(c *Ctx) {
 		c.R.Check(!bad && named, load.FuncName(sn)+": always overwrites", c.pos(p), "the helper writes the supplied name into the annotation on every path", "SetCompositionResourceName can return without writing the supplied name: an annotation the rendered body already carries wins, and the resource is filed under another template")
 	}
 	ptRenderOrder(c, pt)
+
+	c.R.Rule("R1.9", "the managed-fields upgrade recognises an upgraded object whatever the order of its managers", 2,
+		"an upgraded composed resource whose own manager entry is not the last one is taken for not upgraded: its managed fields are cleared and re-applied on every reconcile - the steady state never stops writing")
+	if up := c.method(pkgComposite, "PatchingManagedFieldsUpgrader", "Upgrade"); up != nil {
+		stickyFlags(c, up)
+	}
 }
 
 // ptRenderOrder: in the P&T composer the metadata of a composed resource (the
@@ -553,6 +560,75 @@ func isWrapOfCall(v ssa.Value) bool {
 	}
 	_, isCall := c.Call.Args[0].(*ssa.Call)
 	return isCall
+}
+
+// stickyFlags: every boolean carried round a loop of fn ("found one") only ever
+// goes from false to true: the value it has after an iteration is itself, true,
+// or something computed only where it was false. Reports flags that a later
+// element can reset.
+func stickyFlags(c *Ctx, fn *ssa.Function) {
+	n := 0
+	for _, b := range fn.Blocks {
+		loop := cfgx.LoopOf(b)
+		if loop == nil || cfgx.LoopHeader(loop) != b {
+			continue
+		}
+		for _, in := range b.Instrs {
+			phi, ok := in.(*ssa.Phi)
+			if !ok {
+				break
+			}
+			if bt, isB := phi.Type().Underlying().(*types.Basic); !isB || bt.Kind() != types.Bool {
+				continue
+			}
+			_, whenFalse := cfgx.CondEdges(phi)
+			seen := map[ssa.Value]bool{}
+			var walk func(v ssa.Value, pred *ssa.BasicBlock) bool
+			walk = func(v ssa.Value, pred *ssa.BasicBlock) bool {
+				if v == ssa.Value(phi) {
+					return true
+				}
+				if k, isC := cfgx.ConstBool(v); isC {
+					return k
+				}
+				if p, isPhi := v.(*ssa.Phi); isPhi && loop[p.Block()] {
+					if seen[p] {
+						return true
+					}
+					seen[p] = true
+					for i, e := range p.Edges {
+						if !walk(e, p.Block().Preds[i]) {
+							return false
+						}
+					}
+					return true
+				}
+				if pred == nil || len(whenFalse) == 0 {
+					return false
+				}
+				okc, _ := cfgx.MustCross(pred.Instrs[len(pred.Instrs)-1], whenFalse, nil)
+				return okc
+			}
+			sticky, initFalse := true, false
+			for i, e := range phi.Edges {
+				if loop[b.Preds[i]] {
+					if !walk(e, b.Preds[i]) {
+						sticky = false
+					}
+				} else if k, isC := cfgx.ConstBool(e); isC && !k {
+					initFalse = true
+				}
+			}
+			if !initFalse {
+				continue // not a "found" flag
+			}
+			n++
+			c.R.Check(sticky, load.FuncName(fn)+": flag "+phi.Comment+" is sticky", c.pos(firstPos(b)), "once set in the loop the flag stays set", "the flag "+phi.Comment+" can be reset by a later element of the loop: only the last element decides")
+		}
+	}
+	if n == 0 {
+		c.R.Unknown(load.FuncName(fn)+": flags", c.pos(fn.Pos()), "no loop-carried found-flag in this function")
+	}
 }
 
 // nameGeneratorRules: the name generator never renames and hands out a name
